@@ -1,5 +1,217 @@
-//! Stateless public functions (C12): placeholder, filled in below.
+//! Stateless public functions of the library (C12): every one of them is
+//! called on the same adversarial inputs; none may panic, overflow or hang.
+
+use crate::case::{Hex, F};
+use crate::checks::RunStats;
+use crate::exec::guarded;
+use crate::frames::{self, FrameShape, Mangle};
+use crate::oracle::{normalise, v, Violation};
+use crate::rng::{Hasher64, Rng};
+use crate::case::{ACodec, VCodec, VCODECS};
 use serde::{Deserialize, Serialize};
 
 #[derive(Clone, Debug, Serialize, Deserialize)]
-pub struct StatelessCase {}
+pub struct StatelessCase {
+    pub bytes: Hex,
+    pub n: u64,
+    pub m: u64,
+    pub x: F,
+    pub text: String,
+}
+
+pub fn gen(rng: &mut Rng) -> StatelessCase {
+    let codec = *rng.pick(&VCODECS);
+    let base: Vec<u8> = match rng.below(10) {
+        0 => Vec::new(),
+        1 => {
+            let n = rng.range(1, 64) as usize;
+            rng.bytes(n)
+        }
+        2 => {
+            // start-code heavy alphabet
+            let n = rng.range(1, 24) as usize;
+            (0..n).map(|_| *rng.pick(&[0u8, 0, 0, 1, 1, 2, 0x65, 0x67, 0x68, 0x40, 0x42, 0x44, 0x26, 0xff])).collect()
+        }
+        3 => {
+            // OBU-ish: header bytes + LEB128 continuation runs
+            let n = rng.range(1, 20) as usize;
+            (0..n).map(|_| *rng.pick(&[0x0au8, 0x12, 0x32, 0x0e, 0x80, 0xff, 0x7f, 0x00, 0x01, 0x0c])).collect()
+        }
+        4 => {
+            // VP9-ish
+            let mut d = vec![0x49, 0x83, 0x42];
+            let n = rng.range(0, 12) as usize;
+            d.extend((0..n).map(|_| *rng.pick(&[0u8, 0x80, 0xff, 0x7f, 0x0c, 0x10, 0x20, 0xc0, 1])));
+            d
+        }
+        5 => {
+            let ac = *rng.pick(&[ACodec::AacLc, ACodec::Opus]);
+            let f = frames::build_audio(rng, ac, 1, 20, true);
+            if rng.bool() {
+                let how = *rng.pick(&[Mangle::Truncate, Mangle::BitFlip]);
+                frames::mangle(rng, &f.data, how)
+            } else {
+                f.data
+            }
+        }
+        _ => {
+            let shape = *rng.pick(&[FrameShape::KeyWithConfig, FrameShape::KeyNoConfig, FrameShape::ConfigNoKey, FrameShape::Delta]);
+            let stamp = rng.next_u64();
+            let f = frames::build_video(rng, codec, shape, stamp, 24, true);
+            match rng.below(4) {
+                0 => f.data,
+                1 => frames::mangle(rng, &f.data, Mangle::Truncate),
+                2 => frames::mangle(rng, &f.data, Mangle::BitFlip),
+                _ => {
+                    let mut d = f.data;
+                    let cut = rng.usize(d.len().max(1));
+                    d.truncate(cut);
+                    let fill = *rng.pick(&[0u8, 0xff, 0x80]);
+                    let k = rng.range(0, 12) as usize;
+                    d.extend(std::iter::repeat(fill).take(k));
+                    d
+                }
+            }
+        }
+    };
+    let extremes = [0u64, 1, 2, 3, 7, 8, 255, 256, 65535, 65536, 90000, 192000, 192001, u32::MAX as u64, u32::MAX as u64 + 1, u64::MAX - 1, u64::MAX];
+    let n = if rng.chance(2, 3) { *rng.pick(&extremes) } else { rng.next_u64() >> rng.below(64) };
+    let m = if rng.chance(2, 3) { *rng.pick(&extremes) } else { rng.next_u64() >> rng.below(64) };
+    let xs = [0.0, -0.0, 1.0, -1.0, 29.97, 120.0, 120.0000001, 1e300, -1e300, f64::NAN, f64::INFINITY, f64::NEG_INFINITY, f64::MIN_POSITIVE, 5e-324, f64::MAX];
+    let x = if rng.chance(3, 4) { *rng.pick(&xs) } else { f64::from_bits(rng.next_u64()) };
+    let texts = ["", "h264", "H.264", "avc", "hevc", "h265", "H.265", "av1", "vp9", "aac", "AAC-LC", "aac-main", "aac-ssr", "aac-ltp", "aac-he", "aac-hev2", "opus", "none", "ǅ", "İ", "eng", "日本語", "\u{0}", "xx"];
+    let text = if rng.chance(3, 4) {
+        texts[rng.usize(texts.len())].to_string()
+    } else {
+        let n = rng.range(0, 12) as usize;
+        String::from_utf8_lossy(&rng.bytes(n)).into_owned()
+    };
+    StatelessCase { bytes: Hex(base), n, m, x: F(x), text }
+}
+
+macro_rules! call {
+    ($out:expr, $h:expr, $name:expr, $body:expr) => {
+        match guarded(|| $body) {
+            Ok(val) => {
+                $h.str($name);
+                $h.str(&format!("{:?}", val));
+            }
+            Err((msg, loc)) => {
+                $out.push(v("C12", "panic", format!("{}:{}", $name, normalise(&msg)), format!("{} panicked: {} at {}", $name, msg, loc)));
+            }
+        }
+    };
+}
+
+pub fn eval(c: &StatelessCase, st: &mut RunStats) -> Vec<Violation> {
+    use muxide::api::{AacProfile, AudioCodec, Metadata, MuxerConfig, VideoCodec};
+    use muxide::codec::{av1, common, h264, h265, opus, vp9};
+    use muxide::validation as val;
+    let mut out: Vec<Violation> = Vec::new();
+    let mut h = Hasher64::new();
+    let d = &c.bytes.0[..];
+    let n = c.n;
+    let m = c.m;
+    let x = c.x.0;
+
+    // codec::common
+    call!(out, h, "codec::find_start_code", common::find_start_code(d, (n as usize) % (d.len() + 3)));
+    call!(out, h, "codec::find_start_code(extreme)", common::find_start_code(d, n as usize));
+    call!(out, h, "codec::AnnexBNalIter", common::AnnexBNalIter::new(d).map(|u| u.len()).collect::<Vec<_>>());
+    // h264
+    call!(out, h, "codec::h264::extract_avc_config", h264::extract_avc_config(d));
+    call!(out, h, "codec::h264::annexb_to_avcc", h264::annexb_to_avcc(d).len());
+    call!(out, h, "codec::h264::is_h264_keyframe", h264::is_h264_keyframe(d));
+    call!(out, h, "codec::h264::AvcConfig", {
+        let k = (n as usize) % (d.len() + 1);
+        let cfg = h264::AvcConfig::new(d[..k].to_vec(), d[k..].to_vec());
+        (cfg.profile_idc(), cfg.profile_compatibility(), cfg.level_idc(), h264::default_avc_config().sps.len())
+    });
+    // h265
+    call!(out, h, "codec::h265::extract_hevc_config", h265::extract_hevc_config(d));
+    call!(out, h, "codec::h265::hevc_annexb_to_hvcc", h265::hevc_annexb_to_hvcc(d).len());
+    call!(out, h, "codec::h265::is_hevc_keyframe", h265::is_hevc_keyframe(d));
+    call!(out, h, "codec::h265::hevc_nal_type", h265::hevc_nal_type(d));
+    call!(out, h, "codec::h265::is_hevc_keyframe_nal_type", h265::is_hevc_keyframe_nal_type(n as u8));
+    call!(out, h, "codec::h265::HevcConfig", {
+        let k = (n as usize) % (d.len() + 1);
+        let j = (m as usize) % (k + 1);
+        let cfg = h265::HevcConfig::new(d[..j].to_vec(), d[j..k].to_vec(), d[k..].to_vec());
+        (cfg.general_profile_space(), cfg.general_tier_flag(), cfg.general_profile_idc(), cfg.general_level_idc())
+    });
+    // av1
+    call!(out, h, "codec::av1::obu helpers", (av1::obu_type(n as u8), av1::obu_has_extension(n as u8), av1::obu_has_size(n as u8)));
+    call!(out, h, "codec::av1::read_leb128", av1::read_leb128(d));
+    call!(out, h, "codec::av1::parse_obu_header", av1::parse_obu_header(d).map(|i| (i.obu_type, i.has_extension, i.header_size, i.payload_size, i.total_size)));
+    call!(out, h, "codec::av1::ObuIter", av1::ObuIter::new(d).map(|(i, b)| (i.obu_type, b.len())).collect::<Vec<_>>());
+    call!(out, h, "codec::av1::extract_av1_config", av1::extract_av1_config(d));
+    call!(out, h, "codec::av1::is_av1_keyframe", av1::is_av1_keyframe(d));
+    // vp9
+    call!(out, h, "codec::vp9::is_vp9_keyframe", vp9::is_vp9_keyframe(d).map_err(|e| format!("{} {:?}", e, e)));
+    call!(out, h, "codec::vp9::extract_vp9_config", vp9::extract_vp9_config(d));
+    call!(out, h, "codec::vp9::is_valid_vp9_frame", vp9::is_valid_vp9_frame(d));
+    // opus
+    call!(out, h, "codec::opus::opus_frame_duration_from_toc", opus::opus_frame_duration_from_toc(n as u8).map(|f| (f.samples(), f.seconds().to_bits())));
+    call!(out, h, "codec::opus::opus_frame_count", opus::opus_frame_count(d));
+    call!(out, h, "codec::opus::opus_packet_samples", opus::opus_packet_samples(d));
+    call!(out, h, "codec::opus::is_valid_opus_packet", opus::is_valid_opus_packet(d));
+    call!(out, h, "codec::opus::OpusConfig", {
+        let cfg = opus::OpusConfig::default().with_channels(n as u8).with_pre_skip(m as u16);
+        (cfg.channel_mapping_family, opus::OpusConfig::mono().output_channel_count, opus::OpusConfig::stereo().output_channel_count)
+    });
+    // validation
+    let vcodecs = [VideoCodec::H264, VideoCodec::H265, VideoCodec::Av1, VideoCodec::Vp9];
+    let acodecs = [AudioCodec::Aac(AacProfile::Lc), AudioCodec::Aac(AacProfile::Hev2), AudioCodec::Opus, AudioCodec::None];
+    for vc in vcodecs {
+        call!(out, h, "validation::validate_video_config", val::validate_video_config(vc, n as u32, m as u32, x));
+        call!(out, h, "validation::validate_video_frame", val::validate_video_frame(vc, d, n & 1 == 1));
+    }
+    for ac in acodecs {
+        call!(out, h, "validation::validate_audio_config", val::validate_audio_config(ac, n as u32, m as u8));
+        call!(out, h, "validation::validate_audio_frame", val::validate_audio_frame(ac, d));
+    }
+    call!(out, h, "validation::validate_muxing_config", {
+        let vcfg = val::VideoValidationConfig {
+            codec: if n & 2 == 0 { Some(vcodecs[(n % 4) as usize]) } else { None },
+            width: if n & 4 == 0 { Some(m as u32) } else { None },
+            height: if n & 8 == 0 { Some((m >> 16) as u32) } else { None },
+            framerate: if n & 16 == 0 { Some(x) } else { None },
+            sample_frame: if n & 32 == 0 { Some((d.to_vec(), n & 64 == 0)) } else { None },
+        };
+        let acfg = val::AudioValidationConfig {
+            codec: if m & 2 == 0 { Some(acodecs[(m % 4) as usize]) } else { None },
+            sample_rate: if m & 4 == 0 { Some(n as u32) } else { None },
+            channels: if m & 8 == 0 { Some(n as u8) } else { None },
+            sample_frame: if m & 16 == 0 { Some(d.to_vec()) } else { None },
+        };
+        val::validate_muxing_config(vcfg, acfg)
+    });
+    call!(out, h, "validation::ValidationResult", {
+        let r = val::ValidationResult::valid().with_message(c.text.clone()).with_error(c.text.clone());
+        (r.is_valid, val::ValidationResult::invalid(vec![c.text.clone()]).errors.len())
+    });
+    // api value types
+    call!(out, h, "api::VideoCodec::from_str", c.text.parse::<VideoCodec>().map(|v| format!("{} {:?}", v, v)));
+    call!(out, h, "api::AudioCodec::from_str", c.text.parse::<AudioCodec>().map(|v| format!("{} {:?}", v, v)));
+    call!(out, h, "api::Metadata", {
+        let md = Metadata::new().with_title(c.text.clone()).with_creation_time(n).with_language(c.text.clone());
+        let cur = Metadata::new().with_current_time();
+        (md.title.map(|t| t.len()), md.creation_time, cur.creation_time.is_some())
+    });
+    call!(out, h, "api::MuxerConfig", {
+        let cfg = MuxerConfig::new(n as u32, m as u32, x).with_audio(acodecs[(n % 4) as usize], m as u32, n as u16).with_fast_start(n & 1 == 0).with_metadata(Metadata::new());
+        (cfg.width, cfg.audio.is_some())
+    });
+    // invariant log entry points that are documented not to panic
+    call!(out, h, "invariant_ppt::log", {
+        muxide::invariant_ppt::clear_invariant_log();
+        muxide::invariant_ppt::get_logged_invariants().len()
+    });
+    st.trace_hash = h.finish();
+    st.evaluations = 60;
+    let mut a = Hasher64::new();
+    a.u64(d.len().min(40) as u64);
+    a.bytes(&d[..d.len().min(6)]);
+    st.nontrivial = Some(a.finish());
+    out
+}
